@@ -537,6 +537,9 @@ struct DispatchSim : Sim {
                                         a[i] = mix64(p.seed, 0xa0 + i + 16 * oi);
                                 // the resolver takes no arguments and must preserve every register
                                 uint64_t rax_in, r10_in, r11_in;
+                                std::vector<void *> slots_before;
+                                for (auto &x : g_entries)
+                                        slots_before.push_back(*x.slot);
                                 {
                                         SlotWatch sw(en.slot, en.mbinit);
                                         // Env::call poisons rax/r10/r11 from the hidden stream; read them back from the frame afterwards
@@ -549,6 +552,13 @@ struct DispatchSim : Sim {
                                         r10_in = e.frame->in_r10;
                                         r11_in = e.frame->in_r11;
                                 }
+                                // a resolver binds its own entry point and nothing else: the binding of another entry point, once made, does not change
+                                for (size_t xi = 0; xi < g_entries.size(); xi++)
+                                        if (&g_entries[xi] != &en && *g_entries[xi].slot != slots_before[xi])
+                                                e.violation("C12", "binding-changed", "C12/binding-changed/" + g_entries[xi].name,
+                                                            strfmt("the resolver of %s changed the binding of %s from %s to %s on [%s]", en.name.c_str(), g_entries[xi].name.c_str(),
+                                                                   addr_to_sym((uintptr_t) slots_before[xi]).c_str(), addr_to_sym((uintptr_t) *g_entries[xi].slot).c_str(),
+                                                                   cpuA.str().c_str()));
                                 check_resolver_regs(en, e, a, r10_in, r11_in, rax_in);
                                 if (g_simcpu.xgetbv_without_osxsave)
                                         e.violation("C12", "xgetbv-without-osxsave", "C12/xgetbv-without-osxsave/" + en.name,
